@@ -4,16 +4,22 @@ package comp
 // / AddResultCallback and the inbound reply / result path, plus the SPEC
 // monitor of the property evaluated on the implementation's own invocation log.
 //
-// World of one history: a local device with node management (feature 0), a
-// LoadControl client (1) and a Setpoint client (2); two peers, each discovered
-// with node management and the two matching server features. Inbound traffic
-// goes through DeviceRemote.HandleSpineMesssage as JSON.
+// World of one history: a local device with node management (feature 0) and
+// HIERARCHICAL local entities whose features repeat the same feature ids:
+//   1 LoadControl client @ [1] (id 1)    2 Setpoint client @ [1] (id 2)
+//   3 LoadControl client @ [1,1] (id 1)  4 Setpoint client @ [1,1] (id 2)
+//   5 LoadControl client @ [2] (id 1)    6 LoadControl client @ [2,1] (id 1)
+// (parents are added first), and two peers, each discovered with node
+// management and the two matching server features. Inbound traffic goes through
+// DeviceRemote.HandleSpineMesssage as JSON.
 //
 // Ops (also the replay format):
 //   reg f c cb        AddResponseCallback on feature f for counter c with function literal cb (1..3)
 //   regres f cb       AddResultCallback on feature f
 //   arr p f c kind    a datagram from peer p to feature f referencing c; kind:
-//        reply       reply the feature accepts         disc      discovery reply (f = 0), accepted
+//        reply       full reply, 1-2 list items        disc      discovery reply (f = 0), accepted
+//        replypart   reply with a partial filter (items with identifiers, merged into the cached list)
+//        replysel    reply with a partial filter and a selector     replydel  reply with a delete filter and a selector
 //        result0/1   result without / with error       rejected  reply the feature rejects
 //        noref       acceptable reply, no reference    notify    notify that carries a reference
 //        badresult   result without error number       unknownsrc reply from an unknown remote feature
@@ -102,31 +108,67 @@ func cbkDiscovery(dev string) *model.NodeManagementDetailedDiscoveryDataType {
 	}
 	return &model.NodeManagementDetailedDiscoveryDataType{
 		DeviceInformation: &model.NodeManagementDetailedDiscoveryDeviceInformationType{Description: &model.NetworkManagementDeviceDescriptionDataType{DeviceAddress: &model.DeviceAddressType{Device: util.Ptr(model.AddressDeviceType(dev))}}},
-		EntityInformation: []model.NodeManagementDetailedDiscoveryEntityInformationType{ent([]uint{0}, model.EntityTypeTypeDeviceInformation), ent([]uint{1}, model.EntityTypeTypeEVSE)},
+		EntityInformation: []model.NodeManagementDetailedDiscoveryEntityInformationType{ent([]uint{0}, model.EntityTypeTypeDeviceInformation), ent([]uint{1}, model.EntityTypeTypeEVSE), ent([]uint{1, 1}, model.EntityTypeTypeEV)},
 		FeatureInformation: []model.NodeManagementDetailedDiscoveryFeatureInformationType{
 			feat([]uint{0}, 0, model.FeatureTypeTypeNodeManagement, model.RoleTypeSpecial),
 			feat([]uint{1}, 1, model.FeatureTypeTypeLoadControl, model.RoleTypeServer),
-			feat([]uint{1}, 2, model.FeatureTypeTypeSetpoint, model.RoleTypeServer)},
+			feat([]uint{1}, 2, model.FeatureTypeTypeSetpoint, model.RoleTypeServer),
+			feat([]uint{1, 1}, 1, model.FeatureTypeTypeLoadControl, model.RoleTypeServer)}, // remote sub-entity repeating feature id 1
 	}
 }
 
 func cbkDev(p int) string { return fmt.Sprintf("dev%d", p) }
 func cbkSki(p int) string { return fmt.Sprintf("ski%d", p) }
 
+const cbkNFeat = 7
+
+// cbkRemote: the number of the remote feature that talks to local feature f
+// (0 node management, 1 LoadControl server, 2 Setpoint server).
+func cbkRemote(f int) int {
+	switch f {
+	case 0:
+		return 0
+	case 2, 4:
+		return 2
+	}
+	return 1
+}
+
 // cbkSrc is the address of the remote feature that talks to local feature f.
 func cbkSrc(p, f int) *model.FeatureAddressType {
 	if f == 0 {
 		return h.FA(cbkDev(p), []uint{0}, 0)
 	}
-	return h.FA(cbkDev(p), []uint{1}, uint(f))
+	if f == 3 || f == 6 { // the child LoadControl clients talk to the LoadControl server of the remote SUB-entity
+		return h.FA(cbkDev(p), []uint{1, 1}, 1)
+	}
+	return h.FA(cbkDev(p), []uint{1}, uint(cbkRemote(f)))
+}
+
+// cbkSrcNum: peer*100 + depth of the remote entity*10 + feature number.
+func cbkSrcNum(p int, a *model.FeatureAddressType) int {
+	if a == nil || a.Feature == nil {
+		return 0
+	}
+	return p*100 + len(a.Entity)*10 + int(*a.Feature)
 }
 
 func newCbkWorld(discover bool) *cbkWorld {
 	l := spine.NewDeviceLocal("b", "m", "s", "c", "HEMS", model.DeviceTypeTypeEnergyManagementSystem, model.NetworkManagementFeatureSetTypeSmart)
-	e1 := spine.NewEntityLocal(l, model.EntityTypeTypeCEM, spine.NewAddressEntityType([]uint{1}), 4*time.Second)
-	l.AddEntity(e1)
+	ent := func(a ...uint) *spine.EntityLocal {
+		e := spine.NewEntityLocal(l, model.EntityTypeTypeCEM, spine.NewAddressEntityType(a), 4*time.Second)
+		l.AddEntity(e)
+		return e
+	}
+	e1, e11, e2, e21 := ent(1), ent(1, 1), ent(2), ent(2, 1) // parents first
 	w := &cbkWorld{l: l, rds: map[int]api.DeviceRemoteInterface{}, ws: map[int]*h.W{}, log: &cbkLog{}, ctr: 500}
-	w.feats = map[int]api.FeatureLocalInterface{0: l.NodeManagement(), 1: e1.GetOrAddFeature(model.FeatureTypeTypeLoadControl, model.RoleTypeClient), 2: e1.GetOrAddFeature(model.FeatureTypeTypeSetpoint, model.RoleTypeClient)}
+	lc := func(e *spine.EntityLocal) api.FeatureLocalInterface {
+		return e.GetOrAddFeature(model.FeatureTypeTypeLoadControl, model.RoleTypeClient)
+	}
+	sp := func(e *spine.EntityLocal) api.FeatureLocalInterface {
+		return e.GetOrAddFeature(model.FeatureTypeTypeSetpoint, model.RoleTypeClient)
+	}
+	w.feats = map[int]api.FeatureLocalInterface{0: l.NodeManagement(), 1: lc(e1), 2: sp(e1), 3: lc(e11), 4: sp(e11), 5: lc(e2), 6: lc(e21)}
 	for p := 1; p <= 2; p++ {
 		w.ws[p] = &h.W{}
 		l.SetupRemoteDevice(cbkSki(p), w.ws[p])
@@ -172,24 +214,74 @@ func (w *cbkWorld) rejectedOnWire(p int, ctr uint64) bool {
 }
 
 // cbkPayload builds the command of an arrival; data = what the callback must
-// be handed (nil when no callback may fire).
+// be handed (the received data of the function). List items carry a small
+// identifier (so that partial replies merge into what earlier replies and
+// notifies cached) and the arrival number as value.
 func cbkPayload(f int, kind string, arrival int, p int) (cl model.CmdClassifierType, cmd model.CmdType, data any) {
+	num := func(n int) *model.ScaledNumberType { return model.NewScaledNumberType(float64(n)) }
+	id := 1 + arrival%3
+	// list: a command for the function of local feature f with n items; filter = cmdOption filters
+	list := func(n int, withID bool, filter []model.FilterType) (model.CmdType, any) {
+		var fn *model.FunctionType
+		if filter != nil {
+			fn = util.Ptr(model.FunctionTypeLoadControlLimitListData)
+			if cbkRemote(f) == 2 {
+				fn = util.Ptr(model.FunctionTypeSetpointListData)
+			}
+		}
+		if cbkRemote(f) == 2 {
+			d := &model.SetpointListDataType{}
+			for i := 0; i < n; i++ {
+				it := model.SetpointDataType{Value: num(arrival), IsSetpointActive: util.Ptr(arrival%2 == 0)}
+				if withID {
+					it.SetpointId = util.Ptr(model.SetpointIdType(1 + (id-1+i)%3))
+				}
+				d.SetpointData = append(d.SetpointData, it)
+			}
+			return model.CmdType{Function: fn, Filter: filter, SetpointListData: d}, d
+		}
+		d := &model.LoadControlLimitListDataType{}
+		for i := 0; i < n; i++ {
+			it := model.LoadControlLimitDataType{Value: num(arrival), IsLimitActive: util.Ptr(arrival%2 == 0)}
+			if withID {
+				it.LimitId = util.Ptr(model.LoadControlLimitIdType(1 + (id-1+i)%3))
+			}
+			d.LoadControlLimitData = append(d.LoadControlLimitData, it)
+		}
+		return model.CmdType{Function: fn, Filter: filter, LoadControlLimitListData: d}, d
+	}
+	selector := func(fl *model.FilterType) model.FilterType {
+		if cbkRemote(f) == 2 {
+			fl.SetpointListDataSelectors = &model.SetpointListDataSelectorsType{SetpointId: util.Ptr(model.SetpointIdType(id))}
+		} else {
+			fl.LoadControlLimitListDataSelectors = &model.LoadControlLimitListDataSelectorsType{LimitId: util.Ptr(model.LoadControlLimitIdType(id))}
+		}
+		return *fl
+	}
 	good := func() (model.CmdType, any) {
-		switch f {
-		case 0:
+		if f == 0 {
 			d := &model.NodeManagementUseCaseDataType{UseCaseInformation: []model.UseCaseInformationDataType{{Actor: util.Ptr(model.UseCaseActorType("a" + strconv.Itoa(arrival)))}}}
 			return model.CmdType{NodeManagementUseCaseData: d}, d
-		case 1:
-			d := &model.LoadControlLimitListDataType{LoadControlLimitData: []model.LoadControlLimitDataType{{LimitId: util.Ptr(model.LoadControlLimitIdType(arrival)), IsLimitActive: util.Ptr(arrival%2 == 0)}}}
-			return model.CmdType{LoadControlLimitListData: d}, d
-		default:
-			d := &model.SetpointListDataType{SetpointData: []model.SetpointDataType{{SetpointId: util.Ptr(model.SetpointIdType(arrival))}}}
-			return model.CmdType{SetpointListData: d}, d
 		}
+		return list(1+arrival%2, true, nil)
 	}
 	switch kind {
 	case "reply", "noref", "unknownsrc":
 		c, d := good()
+		return model.CmdClassifierTypeReply, c, d
+	case "replypart": // partial filter, items addressed by their identifiers
+		c, d := list(1+arrival%2, true, []model.FilterType{*model.NewFilterTypePartial()})
+		return model.CmdClassifierTypeReply, c, d
+	case "replysel": // partial filter with a selector, one item without identifier
+		c, d := list(1, false, []model.FilterType{selector(model.NewFilterTypePartial())})
+		return model.CmdClassifierTypeReply, c, d
+	case "replydel": // delete filter with a selector (sometimes together with a partial filter and an item)
+		del := selector(&model.FilterType{CmdControl: &model.CmdControlType{Delete: &model.ElementTagType{}}})
+		if arrival%2 == 0 {
+			c, d := list(1, true, []model.FilterType{del, *model.NewFilterTypePartial()})
+			return model.CmdClassifierTypeReply, c, d
+		}
+		c, d := list(0, false, []model.FilterType{del})
 		return model.CmdClassifierTypeReply, c, d
 	case "notify":
 		c, d := good()
@@ -218,7 +310,7 @@ func cbkPayload(f int, kind string, arrival int, p int) (cl model.CmdClassifierT
 	panic("bad kind " + kind)
 }
 
-var cbkKinds = []string{"reply", "disc", "result0", "result1", "rejected", "noref", "notify", "badresult", "unknownsrc"}
+var cbkKinds = []string{"reply", "replypart", "replysel", "replydel", "disc", "result0", "result1", "rejected", "noref", "notify", "badresult", "unknownsrc"}
 
 // cbkDataNum extracts the arrival number the harness put into the data (0 if it is not there).
 func cbkDataNum(d any) int {
@@ -229,12 +321,12 @@ func cbkDataNum(d any) int {
 			return num(string(*x.UseCaseInformation[0].Actor))
 		}
 	case *model.LoadControlLimitListDataType:
-		if x != nil && len(x.LoadControlLimitData) == 1 && x.LoadControlLimitData[0].LimitId != nil {
-			return int(*x.LoadControlLimitData[0].LimitId)
+		if x != nil && len(x.LoadControlLimitData) >= 1 && x.LoadControlLimitData[0].Value != nil {
+			return int(x.LoadControlLimitData[0].Value.GetValue())
 		}
 	case *model.SetpointListDataType:
-		if x != nil && len(x.SetpointData) == 1 && x.SetpointData[0].SetpointId != nil {
-			return int(*x.SetpointData[0].SetpointId)
+		if x != nil && len(x.SetpointData) >= 1 && x.SetpointData[0].Value != nil {
+			return int(x.SetpointData[0].Value.GetValue())
 		}
 	case *model.ResultDataType:
 		if x != nil && x.Description != nil {
@@ -248,13 +340,13 @@ func cbkDataNum(d any) int {
 	return 0
 }
 
-// cbkSrcCode: peer*10 + feature number of the originating remote feature, as the invocation reports it.
+// cbkSrcCode: cbkSrcNum of the originating remote feature, as the invocation reports it.
 func cbkSrcCode(m api.ResponseMessage) int {
 	if m.FeatureRemote == nil || m.DeviceRemote == nil || m.FeatureRemote.Address() == nil || m.FeatureRemote.Address().Feature == nil {
 		return 0
 	}
 	p, _ := strconv.Atoi(strings.TrimPrefix(m.DeviceRemote.Ski(), "ski"))
-	return p*10 + int(*m.FeatureRemote.Address().Feature)
+	return cbkSrcNum(p, m.FeatureRemote.Address())
 }
 
 // cbkSettle: h.Settle confirmed on three consecutive polls (runtime.NumGoroutine
@@ -356,7 +448,7 @@ func cbkRunHistory(r *h.Report, d *h.Driver, ops []string, base int, info map[st
 			line = fmt.Sprintf("regres %d %d", ft, cb)
 		case "arr":
 			p, ft, c, k := atoi(1), atoi(2), atoi(3), f[4]
-			if w.rds[p] == nil || w.feats[ft] == nil || (k == "disc" && ft != 0) {
+			if w.rds[p] == nil || w.feats[ft] == nil || (k == "disc" && ft != 0) || (ft == 0 && strings.HasPrefix(k, "reply") && k != "reply") {
 				panic("bad op " + op)
 			}
 			arrival++
@@ -382,9 +474,9 @@ func cbkRunHistory(r *h.Report, d *h.Driver, ops []string, base int, info map[st
 			rejected := w.rejectedOnWire(p, w.ctr)
 			// what kind of arrival is it in the words of the statement?
 			isResult := k == "result0" || k == "result1"
-			isAcceptedReply := k == "reply" || k == "disc"
+			isAcceptedReply := k == "reply" || k == "disc" || k == "replypart" || k == "replysel" || k == "replydel"
 			qualifies := isResult || isAcceptedReply
-			srcCode := p*10 + ft
+			srcCode := cbkSrcNum(p, cbkSrc(p, ft))
 			// SPEC, first sentence
 			got := map[int]int{}
 			gotRes := map[int]int{}
@@ -496,7 +588,7 @@ func cbkRunHistory(r *h.Report, d *h.Driver, ops []string, base int, info map[st
 			if isResult || k == "badresult" {
 				reply = 0
 			}
-			line = fmt.Sprintf("arrive %d %d %d %d %d %d %d", arrival, ft, c, reply, acc, arrival, srcCode)
+			line = fmt.Sprintf("arrive %d %d %d %d %d %d %d", arrival, ft, c, reply, acc, cbkDataNum(data), srcCode)
 		default:
 			panic("bad op " + op)
 		}
@@ -520,11 +612,31 @@ func cbkRunHistory(r *h.Report, d *h.Driver, ops []string, base int, info map[st
 	}
 }
 
+// cbkFamilies: local features that share a feature id and whose entity
+// addresses extend one another (parent, child).
+var cbkFamilies = [][2]int{{1, 3}, {2, 4}, {5, 6}}
+
 func cbkGenHistory(rng interface{ Intn(int) int }, n int) []string {
 	var ops []string
 	nc := 1 + rng.Intn(4) // 1..4 counters
+	// the features of this history: three or four of the seven, mostly with a parent / child pair among them
+	var active []int
+	if rng.Intn(4) > 0 {
+		fam := cbkFamilies[rng.Intn(len(cbkFamilies))]
+		active = append(active, fam[0], fam[1])
+	}
+	for len(active) < 3+rng.Intn(2) {
+		f := rng.Intn(cbkNFeat)
+		dup := false
+		for _, a := range active {
+			dup = dup || a == f
+		}
+		if !dup {
+			active = append(active, f)
+		}
+	}
 	for i := 0; i < n; i++ {
-		f, c := rng.Intn(3), 1+rng.Intn(nc)
+		f, c := active[rng.Intn(len(active))], 1+rng.Intn(nc)
 		switch x := rng.Intn(100); {
 		case x < 34:
 			ops = append(ops, fmt.Sprintf("reg %d %d %d", f, c, 1+rng.Intn(3)))
@@ -534,13 +646,16 @@ func cbkGenHistory(rng interface{ Intn(int) int }, n int) []string {
 			p := 1 + rng.Intn(2)
 			var k string
 			switch y := rng.Intn(100); {
-			case y < 42:
+			case y < 24:
 				k = "reply"
+			case y < 32:
+				k = "replypart"
+			case y < 38:
+				k = "replysel"
+			case y < 42:
+				k = "replydel"
 			case y < 47:
 				k = "disc"
-				if f != 0 {
-					k = "reply"
-				}
 			case y < 60:
 				k = "result0"
 			case y < 72:
@@ -555,6 +670,12 @@ func cbkGenHistory(rng interface{ Intn(int) int }, n int) []string {
 				k = "badresult"
 			default:
 				k = "unknownsrc"
+			}
+			if f == 0 && strings.HasPrefix(k, "reply") {
+				k = "reply"
+			}
+			if f != 0 && k == "disc" {
+				k = "reply"
 			}
 			if rng.Intn(12) == 0 {
 				c = 9 // a reference nobody registered for
@@ -637,7 +758,7 @@ func cbkConcurrent(r *h.Report, base int, round int) {
 		return "reply"
 	}
 	var keys []key
-	for f := 0; f < 3; f++ {
+	for _, f := range []int{0, 1, 3} { // node management, a parent feature, its child with the same feature id
 		for c := 1; c <= 3; c++ {
 			keys = append(keys, key{f, c})
 		}
@@ -719,7 +840,7 @@ func cbkConcurrent(r *h.Report, base int, round int) {
 }
 
 func TestCallbacks(t *testing.T) {
-	r := h.NewReport("callbacks", "random histories of AddResponseCallback (3 function literals, 1-4 counters, node management + 2 client features), AddResultCallback and inbound datagrams from two peers (accepted replies, discovery replies, results with and without error, rejected replies, replies without reference, notifies with reference, malformed results, unknown source) through HandleSpineMesssage, compared op by op with Spine.CB (registrations invoked by the arrival with the data and origin handed over); non-trivial = a history with a response-callback invocation, a refused registration and a result-callback invocation (distinct by op text). Concurrent registration rounds and the cross-peer observation: SPEC monitor only.")
+	r := h.NewReport("callbacks", "random histories of AddResponseCallback (3 function literals, 1-4 counters, node management + 6 client features on hierarchical local entities [1],[1,1],[2],[2,1] with repeated feature ids), AddResultCallback and inbound datagrams from two peers (full replies, replies with partial / partial+selector / delete filters merged into cached list data, discovery replies, results with and without error, rejected replies, replies without reference, notifies with reference, malformed results, unknown source) through HandleSpineMesssage, compared op by op with Spine.CB (registrations invoked by the arrival with the data and origin handed over); non-trivial = a history with a response-callback invocation, a refused registration and a result-callback invocation (distinct by op text). Concurrent registration rounds and the cross-peer observation: SPEC monitor only.")
 	defer r.Write()
 	// warm-up: one world built and torn down, then the goroutine baseline at a quiescent point
 	newCbkWorld(true).close()
@@ -764,11 +885,13 @@ func TestCallbacks(t *testing.T) {
 	corpus := [][]string{
 		nmWitness,
 		nmWitness2,
-		{"reg 0 2 1", "reg 0 2 2", "arr 2 0 2 result0", "arr 2 0 2 reply"},                                                                                                                 // node management: results do invoke
-		{"reg 1 1 1", "reg 1 1 1", "reg 1 1 2", "arr 1 1 1 reply", "arr 1 1 1 reply", "reg 1 1 1", "arr 2 1 1 result1"},                                                                    // duplicate refused, repeated reply, re-registration
-		{"reg 1 1 1", "arr 1 1 2 reply", "arr 1 2 1 reply", "arr 1 1 1 rejected", "arr 1 1 1 noref", "arr 1 1 1 notify", "arr 1 1 1 badresult", "arr 1 1 1 unknownsrc", "arr 2 1 1 reply"}, // never for another reference / feature / message kind
-		{"regres 1 1", "regres 1 1", "regres 2 1", "arr 1 1 1 reply", "arr 1 1 1 result0", "arr 2 1 3 result1", "arr 1 2 1 result0", "arr 1 1 1 noref", "arr 1 1 1 badresult"},             // result callbacks
-		{"regres 0 1", "reg 0 1 1", "arr 1 0 1 result1", "arr 1 0 1 reply", "arr 2 0 1 disc"},                                                                                              // result callbacks on node management
+		{"reg 0 2 1", "reg 0 2 2", "arr 2 0 2 result0", "arr 2 0 2 reply"},                                                                                                                                       // node management: results do invoke
+		{"reg 1 1 1", "reg 1 1 1", "reg 1 1 2", "arr 1 1 1 reply", "arr 1 1 1 reply", "reg 1 1 1", "arr 2 1 1 result1"},                                                                                          // duplicate refused, repeated reply, re-registration
+		{"reg 1 1 1", "arr 1 1 2 reply", "arr 1 2 1 reply", "arr 1 1 1 rejected", "arr 1 1 1 noref", "arr 1 1 1 notify", "arr 1 1 1 badresult", "arr 1 1 1 unknownsrc", "arr 2 1 1 reply"},                       // never for another reference / feature / message kind
+		{"regres 1 1", "regres 1 1", "regres 2 1", "arr 1 1 1 reply", "arr 1 1 1 result0", "arr 2 1 3 result1", "arr 1 2 1 result0", "arr 1 1 1 noref", "arr 1 1 1 badresult"},                                   // result callbacks
+		{"reg 1 1 1", "reg 1 2 1", "reg 1 3 1", "reg 2 1 2", "arr 1 1 9 reply", "arr 2 1 9 notify", "arr 1 1 1 replypart", "arr 1 1 2 replysel", "arr 1 1 3 replydel", "arr 1 2 9 reply", "arr 1 2 1 replypart"}, // the received data, not the merged cache: partial / selector / delete replies onto cached data
+		{"reg 1 1 1", "reg 3 1 2", "reg 5 1 1", "reg 6 1 1", "regres 3 1", "arr 1 3 1 reply", "arr 1 1 1 reply", "arr 2 6 1 result0", "arr 2 5 1 reply", "arr 1 3 2 result1"},                                    // same feature id in parent and child entity, equal counters
+		{"regres 0 1", "reg 0 1 1", "arr 1 0 1 result1", "arr 1 0 1 reply", "arr 2 0 1 disc"},                                                                                                                    // result callbacks on node management
 	}
 	for _, c := range corpus {
 		cbkRunHistory(r, d, c, base, info)
